@@ -83,6 +83,27 @@ func everZombie(path string, tr []world.Ev) bool {
 	return false
 }
 
+// livesOf counts the spawns (not restarts) under a path: OnPrelaunch hooks of instances that later launched.
+func livesOf(path string, tr []world.Ev) int {
+	n := 0
+	restarted := false
+	for _, e := range tr {
+		if e.Actor != path {
+			continue
+		}
+		switch {
+		case e.Kind == "hook:restarted":
+			restarted = true
+		case e.Kind == "hook:prelaunch":
+			if !restarted {
+				n++
+			}
+			restarted = false
+		}
+	}
+	return n
+}
+
 func fate(path string, tr []world.Ev) string {
 	launched, dead := false, false
 	for _, e := range tr {
@@ -209,8 +230,21 @@ func run(t *testing.T, s world.Scenario, stopFirst bool) (v *verdict, nontrivial
 				v = &verdict{"C03/handled-and-dead|" + cls, fmt.Sprintf("message %d (to %s, state %s, via %s) was both handled and dead-lettered", snd.ID, snd.To, cls, via)}
 			case h+d+st == 0:
 				if everZombie(snd.To, tr) {
-					lab["zombie-consumed"] = true
-					continue // the documented exception
+					// the documented exception: a zombie consumes its mail. It ends when the zombie is released (killed): for
+					// a path that had a single life, a message sent after its one ActorKilledEvent must be a dead letter
+					released := false
+					if livesOf(snd.To, tr) == 1 {
+						for i, o := range obs {
+							if o.Type == "Killed" && o.Actor == snd.To && i < snd.EventIdx {
+								released = true
+							}
+						}
+					}
+					if !released {
+						lab["zombie-consumed"] = true
+						continue
+					}
+					lab["sent-to-a-released-zombie"] = true
 				}
 				ft := fate(snd.To, tr)
 				provClass := "cached-ref"
